@@ -24,6 +24,7 @@ type Case struct {
 	Extras int            `json:"extras"` // number of valid unreferenced types added for the metamorphic part
 	Esc    []int          `json:"esc,omitempty"` // non-empty: one character of every quoted type name is spelled \uXXXX (which one: this stream)
 	Refuse int            `json:"refuse,omitempty"` // > 0: the withheld types are first offered to the root with a text it has to refuse (which text: this number)
+	Nest   bool           `json:"nest,omitempty"`   // every schema registers only the types its own text names (types behind a type are registered on that type)
 }
 
 var refusedTexts = []string{"", "# only a comment", "  \n ", "{", "### block\ncomment ###", "1 // {min: }"}
@@ -32,6 +33,7 @@ var refusedTexts = []string{"", "# only a comment", "  \n ", "{", "### block\nco
 // with a text that cannot be registered - a refused registration is no registration
 func (c Case) text(p *model.Project) sut.Project {
 	sp := p.Text(c.layout())
+	sp.Nest = c.Nest
 	if c.Refuse > 0 {
 		for i, w := range p.Withheld {
 			sp.Refused = append(sp.Refused, sut.Named{Name: w, Text: refusedTexts[(c.Refuse+i)%len(refusedTexts)]})
@@ -153,10 +155,12 @@ func oracle(c Case) *ev.Verdict {
 		// properties into it for good (known finding recorded under C10, which owns histories)
 		ev.Excluded("projects", "shared type objects: project uses allOf (compiled in place, C10 known finding)")
 	}
-	if len(p.Withheld) > 0 && !usesAllOf {
+	if len(p.Withheld) > 0 && !usesAllOf && !c.Nest { // (with nested registrations a type object keeps what was registered on it)
 		full := p.Clone()
 		full.Withheld = nil
-		first := sut.Build(full.Text(c.layout()))
+		fullText := full.Text(c.layout())
+		fullText.Nest = c.Nest
+		first := sut.Build(fullText)
 		ev.Guard("projects", c)
 		of := sut.ObserveBuilt(first)
 		second := sut.BuildSharing(tp, first)
@@ -189,7 +193,7 @@ func oracle(c Case) *ev.Verdict {
 				n.Add("e", model.Ref("@extra0"))
 			}
 		}
-		o2 := sut.Observe(q.Text(c.layout()))
+		o2 := sut.Observe(c.text(q))
 		for n := range o2.TypeOpenAPI {
 			if strings.HasPrefix(n, "@extra") {
 				delete(o2.TypeOpenAPI, n)
@@ -252,7 +256,21 @@ func addReference(t *rapid.T, obj *model.Node, i int, pl pool, label string) {
 		key = fmt.Sprintf("a\\b/%d\n", i)
 	}
 	pick := func(names []string, l string) string { return rapid.SampledFrom(names).Draw(t, label+l) }
-	switch rapid.IntRange(0, 10).Draw(t, label+"pos") {
+	switch rapid.IntRange(0, 11).Draw(t, label+"pos") {
+	case 11:
+		// an empty container that is "this or a value of that type" (a rule-set with a further rule beside the name)
+		// (the named type has to be of the container's kind: the example is judged against it)
+		set := func(name string) model.Val {
+			return model.Set(model.R("type", model.Str(name)), model.R("nullable", model.Bool(true)))
+		}
+		switch {
+		case len(pl.arr) > 0 && rapid.Bool().Draw(t, label+"emptyarr"):
+			obj.Add(key, model.Arr(model.R("or", model.List(set(pick(pl.arr, "emptyorarr")), model.Str("array")))))
+		case len(pl.obj) > 0:
+			obj.Add(key, model.Obj(model.R("or", model.List(model.Str("object"), set(pick(pl.obj, "emptyorobj"))))))
+		default:
+			obj.Add(key, model.Scalar("integer", "1"))
+		}
 	case 10:
 		// a nested object that inherits on its own (below an object that may itself carry allOf)
 		if len(pl.obj) > 0 {
@@ -344,10 +362,11 @@ func genCase(t *rapid.T) Case {
 		{Name: "@s1", Node: model.Scalar("string", `"kk"`)},
 		{Name: "@s2", Node: model.Scalar("string", `"kk"`, model.R("minLength", model.Num("1")))},
 		{Name: "@i1", Node: model.Scalar("integer", "7")},
+		{Name: "@i2", Node: model.Scalar("integer", "7", model.R("or", model.List(model.Set(model.R("type", model.Str("integer")), model.R("min", model.Num("0"))), model.Set(model.R("type", model.Str("string"))))))},
 		{Name: "@o1", Node: model.Obj().Add("o1_q", model.Scalar("integer", "1"))},
 		{Name: "@a1", Node: model.Arr().Item(model.Scalar("integer", "1"))},
 	}
-	leaf := pool{str: []string{"@s1", "@s2"}, integer: []string{"@i1"}, obj: []string{"@o1"}, any: []string{"@s1", "@s2", "@i1", "@o1", "@a1"}}
+	leaf := pool{str: []string{"@s1", "@s2"}, integer: []string{"@i1", "@i2"}, obj: []string{"@o1"}, arr: []string{"@a1"}, any: []string{"@s1", "@s2", "@i1", "@i2", "@o1", "@a1"}}
 	all := leaf
 	nm := rapid.IntRange(0, 2).Draw(t, "nmid")
 	for i := 0; i < nm; i++ {
@@ -412,6 +431,10 @@ func genCase(t *rapid.T) Case {
 	c := Case{P: p, Extras: rapid.IntRange(0, 3).Draw(t, "extras")}
 	if rapid.IntRange(0, 3).Draw(t, "escaped") == 0 {
 		c.Esc = rapid.SliceOfN(rapid.IntRange(0, 11), 2, 8).Draw(t, "esc")
+	}
+	c.Nest = rapid.IntRange(0, 3).Draw(t, "nest") == 0
+	if c.Nest {
+		c.Esc = nil // (the harness decides who registers what by looking for the names in the texts)
 	}
 	if len(p.Withheld) > 0 && rapid.IntRange(0, 2).Draw(t, "refusedfirst") == 0 {
 		c.Refuse = rapid.IntRange(1, 6).Draw(t, "refuse")
@@ -492,6 +515,12 @@ var shapes = []shape{
 	{"additionalProperties-nested-no-property", "obj", "any", func(n string, d int) *model.Node {
 		return model.Obj().Add(fmt.Sprintf("p%d", d), model.Arr().Item(model.Obj(model.R("additionalProperties", model.Str(n)))))
 	}},
+	{"empty-object-or-rule-set", "obj", "obj", func(n string, d int) *model.Node {
+		return model.Obj().Add(fmt.Sprintf("p%d", d), model.Obj(model.R("or", model.List(model.Set(model.R("type", model.Str(n)), model.R("nullable", model.Bool(true))), model.Str("object")))))
+	}},
+	{"empty-array-or-rule-set-root", "arr", "arr", func(n string, d int) *model.Node {
+		return model.Arr(model.R("or", model.List(model.Str("array"), model.Set(model.R("type", model.Str(n)), model.R("nullable", model.Bool(true))))))
+	}},
 	{"allOf", "obj", "obj", func(n string, d int) *model.Node {
 		return model.Obj(model.R("allOf", model.Str(n))).Add(fmt.Sprintf("own%d", d), model.Scalar("integer", "1"))
 	}},
@@ -523,6 +552,8 @@ func leafOf(need string) *model.Node {
 		return model.Obj().Add("leaf", model.Scalar("integer", "1"))
 	case "str":
 		return model.Scalar("string", `"kk"`)
+	case "arr":
+		return model.Arr().Item(model.Scalar("integer", "1"))
 	}
 	return model.Scalar("integer", "7")
 }
